@@ -116,7 +116,7 @@ pub fn push_sel(sh: &mut Sheet, d: u32, idx: u64, base_ctx: &str, fdepth: u32) {
 }
 
 /// rule-bearing wrappers: (name, pieces of the opening up to and including `{`)
-pub const WRAPPERS: &[&str] = &["@media", "@supports", "@layer", "@container", "@scope", "@document", "@MEDIA", "@supports-nested"];
+pub const WRAPPERS: &[&str] = &["@media", "@supports", "@layer", "@container", "@scope", "@document", "@MEDIA", "@supports-nested", "@-moz-document"];
 
 pub fn push_wrapper_open(sh: &mut Sheet, w: usize) {
     let ctx = format!("prelude:{}", WRAPPERS[w]);
@@ -196,6 +196,13 @@ pub fn push_wrapper_open(sh: &mut Sheet, w: usize) {
             sh.plain("@MEDIA", &ctx);
             sh.ws(false, &ctx);
             sh.plain("print", &ctx);
+        }
+        8 => {
+            // (vendor-prefixed names are the same rules)
+            sh.plain("@-moz-document", &ctx);
+            sh.ws(false, &ctx);
+            sh.plain("url-prefix(", &ctx);
+            sh.plain(")", &ctx);
         }
         7 => {
             // plain parentheses nested inside the parentheses of a prelude are still selector context
@@ -337,6 +344,9 @@ pub const KINDS: &[Kind] = &[
     Kind { name: "rpx", pieces: &["75rpx"], micro: None },
     Kind { name: "neg-rpx", pieces: &["-1.5rpx"], micro: None },
     Kind { name: "pos-rpx", pieces: &["+15rpx"], micro: None },
+    Kind { name: "rpx-8-digits-upper", pieces: &["12345678RPX"], micro: None },
+    Kind { name: "dim-non-ascii-unit", pieces: &["2度"], micro: None },
+    Kind { name: "dim-astral-unit", pieces: &["1.5😀"], micro: None },
     Kind { name: "dim-e", pieces: &["1e"], micro: None },
     Kind { name: "dim-exp-unit", pieces: &["1e1m"], micro: None },
     Kind { name: "unicode-range", pieces: &["U", "+26"], micro: Some(Micro::UnicodeRange) },
@@ -377,6 +387,7 @@ pub const VALUE_CONTEXTS: &[(&str, &[&str], &[&str])] = &[
     ("calc-like-min", &[".", "a", "{", "k", ":", "min("], &[",", "5px", ")", "}"]),
     ("calc-like-clamp-upper", &[".", "a", "{", "k", ":", "CLAMP(", "1px", ","], &[",", "9px", ")", "}"]),
     ("calc-like-round-in-function", &[".", "a", "{", "k", ":", "f(", "round("], &[")", ")", "}"]),
+    ("calc-like-vendor-prefix", &[".", "a", "{", "k", ":", "-webkit-calc("], &[")", "}"]),
     ("function-arg", &[".", "a", "{", "k", ":", "f("], &[")", "}"]),
     ("media-feature", &["@media", " ", "(", "min-width", ":"], &[")", "{", "}"]),
     ("keyframes", &["@keyframes", " ", "n", "{", "50%", "{", "k", ":"], &["}", "}"]),
@@ -393,7 +404,7 @@ fn push_kind(sh: &mut Sheet, k: &Kind, ctx: &str, in_calc: bool) {
         if k.name == "class-like" && *p == "c" && ctx == "media-feature" {
             // at-rule prelude blocks are selector context for class names (C09)
             sh.push(p, Role::Class, ctx);
-        } else if p.ends_with("rpx") {
+        } else if p.ends_with("rpx") || p.ends_with("RPX") {
             sh.push(p, Role::Rpx, ctx);
         } else {
             sh.plain(p, ctx);
